@@ -15,6 +15,7 @@ import z3
 from engine import zsym
 from engine.common import Inconclusive
 from engine.zsym import SBool, SInt, explore, rebind, zint
+from engine.zsym import sym_int as SV
 
 LEVEL = "other"
 TECHNIQUE = "symbolic execution of the real layout/shard/threshold/restore functions on z3 Int proxies (zsym) + SMT (z3, LIA/NIA), bounded in the number of tensors"
@@ -53,11 +54,11 @@ def _layout_spec(sizes, al, thr):
 def _mk_al(kind):
     """alignment: None, a concrete int, or the symbolic Int 'al'."""
     if kind is None:
-        return None, None, []
+        return (lambda: None), None, []
     if kind == "sym":
         a = z3.Int("al")
-        return SInt(a), a, [a > 0]
-    return kind, z3.IntVal(kind), []
+        return (lambda: SV(a)), a, [a > 0]
+    return (lambda: kind), z3.IntVal(kind), []
 
 
 # ---------------------------------------------------------------------------------------------
@@ -69,13 +70,13 @@ def ob_align_step(chk, ed):
     assume = [cur >= 0, size >= 0, al > 0, thr >= 0]
 
     def body_sym():
-        off = ed._align_offset(SInt(cur), SInt(size), SInt(al), SInt(thr))
+        off = ed._align_offset(SV(cur), SV(size), SV(al), SV(thr))
         o = zint(off)
         f = z3.If(al > 4096, al, 4096)
         return z3.If(size > thr, z3.And(o % f == 0, o >= cur, o - cur < f), o == cur)
 
     def body_none():
-        off = ed._align_offset(SInt(cur), SInt(size), None, SInt(thr))
+        off = ed._align_offset(SV(cur), SV(size), None, SV(thr))
         return zint(off) == cur
 
     for name, body in (("align_step[alignment symbolic]", body_sym), ("align_step[alignment None]", body_none)):
@@ -83,7 +84,7 @@ def ob_align_step(chk, ed):
         _account(chk, name, r, dict(cur="Int>=0", size="Int>=0", alignment="Int>0", align_threshold="Int>=0"),
                  lambda m: _replay_align(m, cur, size, al, thr, name))
     # vacuity twin
-    r = explore(lambda: (ed._align_offset(SInt(cur), SInt(size), SInt(al), SInt(thr)), z3.BoolVal(False))[1], assume)
+    r = explore(lambda: (ed._align_offset(SV(cur), SV(size), SV(al), SV(thr)), z3.BoolVal(False))[1], assume)
     if r.cex is None:
         raise Inconclusive("align_step reachability twin not violated (vacuous assumptions)")
     chk.vacuity_ok("align_step")
@@ -103,7 +104,15 @@ def _replay_align(m, cur, size, al, thr, name):
     return bad, dict(call="_align_offset", args=[c, s, a_arg, t], got=off)
 
 
-def _account(chk, name, r, bounds, replay):
+def _account(chk, name, r, bounds, replay, body=None):
+    if body is not None and r.cex is not None:
+        # concrete replay = the same body on plain ints from the model, outside the engine
+        user = replay
+
+        def replay(model):
+            holds, _ = zsym.concrete_run(body, model)
+            _, rec = user(model)
+            return (not holds), rec
     chk.add_stats(r.stats())
     chk.case(name)
     chk.sample({"obligation": name, "paths": r.paths, "queries": r.queries, "symbolic": bounds})
@@ -122,12 +131,13 @@ def ob_layout(chk, ed, K, alkind):
     """`convert_tensors_to_external` (real) with the writer replaced by a recorder."""
     sizes = [z3.Int(f"s{i}") for i in range(K)]
     thr = z3.Int("thr")
-    al_arg, al_t, al_assume = _mk_al(alkind)
+    al_f, al_t, al_assume = _mk_al(alkind)
     assume = [s >= 0 for s in sizes] + [thr >= 0] + al_assume
     name = f"layout[K={K},alignment={alkind}]"
 
     def body():
         rec = {}
+        al_arg = al_f()
 
         def fake_write(tensors, infos, path, **kw):
             rec["tensors"] = list(tensors)
@@ -138,8 +148,8 @@ def ob_layout(chk, ed, K, alkind):
             return (tensor, info)
 
         conv = rebind(ed.convert_tensors_to_external, _write_external_data=fake_write, _create_external_tensor=fake_create)
-        ts = [FT(SInt(s), f"t{i}") for i, s in enumerate(sizes)]
-        out = conv(ts, "base", "m.data", alignment=al_arg, align_threshold=SInt(thr))
+        ts = [FT(SV(s), f"t{i}") for i, s in enumerate(sizes)]
+        out = conv(ts, "base", "m.data", alignment=al_arg, align_threshold=SV(thr))
         if len(out) != K or rec["tensors"] != ts or [o[0] for o in out] != ts:
             return False
         if any(o[1] is not i for o, i in zip(out, rec["infos"])):
@@ -182,7 +192,7 @@ def ob_layout(chk, ed, K, alkind):
         return bad, dict(call="convert_tensors_to_external layout", sizes=cs, alignment=a, align_threshold=t, infos=infos)
 
     r = explore(body, assume, timeout_ms=60000)
-    _account(chk, name, r, dict(sizes=f"{K} x Int>=0", align_threshold="Int>=0", alignment=str(alkind)), replay)
+    _account(chk, name, r, dict(sizes=f"{K} x Int>=0", align_threshold="Int>=0", alignment=str(alkind)), replay, body=body)
 
 
 def _shard_oracle(shards, ts, sizes_of, al_t, thr, mx):
@@ -202,13 +212,14 @@ def _shard_oracle(shards, ts, sizes_of, al_t, thr, mx):
 def ob_shards(chk, ed, K, alkind):
     sizes = [z3.Int(f"s{i}") for i in range(K)]
     thr, mx = z3.Ints("thr mx")
-    al_arg, al_t, al_assume = _mk_al(alkind)
+    al_f, al_t, al_assume = _mk_al(alkind)
     assume = [s >= 0 for s in sizes] + [thr >= 0, mx > 0] + al_assume
     name = f"shards[K={K},alignment={alkind}]"
 
     def body():
-        ts = [FT(SInt(s), f"t{i}") for i, s in enumerate(sizes)]
-        sh = ed._shard_tensors(ts, SInt(mx), al_arg, SInt(thr))
+        al_arg = al_f()
+        ts = [FT(SV(s), f"t{i}") for i, s in enumerate(sizes)]
+        sh = ed._shard_tensors(ts, SV(mx), al_arg, SV(thr))
         return _shard_oracle(sh, ts, {id(t): s for t, s in zip(ts, sizes)}, al_t, thr, mx)
 
     def replay(m):
@@ -232,7 +243,7 @@ def ob_shards(chk, ed, K, alkind):
                          align_threshold=t, shards=[[q.name for q in g] for g in sh])
 
     r = explore(body, assume, timeout_ms=60000)
-    _account(chk, name, r, dict(sizes=f"{K} x Int>=0", max_shard_size_bytes="Int>0", align_threshold="Int>=0", alignment=str(alkind)), replay)
+    _account(chk, name, r, dict(sizes=f"{K} x Int>=0", max_shard_size_bytes="Int>0", align_threshold="Int>=0", alignment=str(alkind)), replay, body=body)
 
 
 def _ref_align(cur, size, a, t):
@@ -250,8 +261,8 @@ def ob_st_shards(chk, st, K):
     name = f"safetensors_shards[K={K}]"
 
     def body():
-        ts = [FT(SInt(s), f"t{i}") for i, s in enumerate(sizes)]
-        sh = st._shard_tensors(ts, SInt(mx))
+        ts = [FT(SV(s), f"t{i}") for i, s in enumerate(sizes)]
+        sh = st._shard_tensors(ts, SV(mx))
         flat = [t for g in sh for t in g]
         if len(flat) != K or any(a is not b for a, b in zip(flat, ts)):
             return False
@@ -275,7 +286,7 @@ def ob_st_shards(chk, st, K):
         return bad, dict(call="_safetensors._shard_tensors", sizes=cs, max_shard_size_bytes=x, shards=[[q.name for q in g] for g in sh])
 
     r = explore(body, assume, timeout_ms=60000)
-    _account(chk, name, r, dict(sizes=f"{K} x Int>=0", max_shard_size_bytes="Int>0"), replay)
+    _account(chk, name, r, dict(sizes=f"{K} x Int>=0", max_shard_size_bytes="Int>0"), replay, body=body)
 
     # None => one shard
     ts = [FT(i) for i in range(K)]
@@ -292,13 +303,14 @@ def ob_jobs(chk, ed, K, alkind):
     are returned in declaration order; callback indices are globally contiguous."""
     sizes = [z3.Int(f"s{i}") for i in range(K)]
     thr, mx = z3.Ints("thr mx")
-    al_arg, al_t, al_assume = _mk_al(alkind)
+    al_f, al_t, al_assume = _mk_al(alkind)
     assume = [s >= 0 for s in sizes] + [thr >= 0, mx > 0] + al_assume
     name = f"shard_jobs[K={K},alignment={alkind}]"
 
     def body():
         jobs = []
         cb_calls = []
+        al_arg = al_f()
 
         def user_cb(tensor, info):
             cb_calls.append((tensor, info))
@@ -313,9 +325,9 @@ def ob_jobs(chk, ed, K, alkind):
 
         wet = rebind(ed._write_external_tensors, convert_tensors_to_external=fake_convert,
                      _check_no_existing_shard_files=lambda paths: None)
-        ts = [FT(SInt(s), f"t{i}") for i, s in enumerate(sizes)]
-        out = wet(ts, "base", "w.data", max_shard_size_bytes=SInt(mx), callback=user_cb, max_workers=None,
-                  max_in_flight_bytes=1 << 30, alignment=al_arg, align_threshold=SInt(thr))
+        ts = [FT(SV(s), f"t{i}") for i, s in enumerate(sizes)]
+        out = wet(ts, "base", "w.data", max_shard_size_bytes=SV(mx), callback=user_cb, max_workers=None,
+                  max_in_flight_bytes=1 << 30, alignment=al_arg, align_threshold=SV(thr))
         if [o[1] for o in out] != ts:
             return False
         flat = [t for j in jobs for t in j[0]]
@@ -347,7 +359,7 @@ def ob_jobs(chk, ed, K, alkind):
                           mx=zsym.model_int(m, mx), thr=zsym.model_int(m, thr))
 
     r = explore(body, assume, timeout_ms=60000)
-    _account(chk, name, r, dict(sizes=f"{K} x Int>=0", max_shard_size_bytes="Int>0"), replay)
+    _account(chk, name, r, dict(sizes=f"{K} x Int>=0", max_shard_size_bytes="Int>0"), replay, body=body)
 
 
 def ob_threshold(chk, ed, core, K):
@@ -357,13 +369,31 @@ def ob_threshold(chk, ed, core, K):
     thr = z3.Int("thr")
     assume = [s >= 0 for s in sizes] + [thr >= 0]
 
+    import numpy as np
+    import onnx_ir as ir
+
+    events = []
+
     class FExt(core.ExternalTensor):  # isinstance(..., ExternalTensor) is what the code tests
         def __init__(self, nbytes, name):  # noqa: super not called on purpose (duck-typed self)
             self._nb = nbytes
             self._nm = name
+            self._data = np.array([float(len(name)), 2.5], dtype=np.float32)
 
         nbytes = property(lambda self: self._nb)
         name = property(lambda self: self._nm, lambda self, v: None)
+        dtype = property(lambda self: ir.DataType.FLOAT)
+
+        def numpy(self):
+            events.append(("read", self._nm))
+            return self._data
+
+        def tobytes(self):
+            events.append(("read", self._nm))
+            return self._data.tobytes()
+
+        def release(self):
+            pass
 
     class V:
         def __init__(self, t):
@@ -378,9 +408,9 @@ def ob_threshold(chk, ed, core, K):
                 if k == "n":
                     ts.append(None)
                 elif k == "e":
-                    ts.append(FExt(SInt(s), f"t{i}"))
+                    ts.append(FExt(SV(s), f"t{i}"))
                 else:
-                    ts.append(FT(SInt(s), f"t{i}"))
+                    ts.append(FT(SV(s), f"t{i}"))
             vals = [V(t) for t in ts]
             half = (K + 1) // 2
 
@@ -392,16 +422,15 @@ def ob_threshold(chk, ed, core, K):
                 def graphs(self):
                     return iter([G(vals[:half]), G(vals[half:])])
 
+            del events[:]
+
             def fake_write(tensors, base_dir, relative_path, **kw):
+                events.append(("write", None))
                 return [("ext", t) for t in tensors]
 
-            def fake_from_external(tensors):
-                return [("mem", t) for t in tensors]
-
-            unload = rebind(ed.unload_from_model, _write_external_tensors=fake_write,
-                            convert_tensors_from_external=fake_from_external)
+            unload = rebind(ed.unload_from_model, _write_external_tensors=fake_write)
             m = M()
-            unload(m, "base", "w.data", size_threshold_bytes=SInt(thr))
+            unload(m, "base", "w.data", size_threshold_bytes=SV(thr))
             conj = []
             for v, t, s, k in zip(vals, ts, sizes, kinds):
                 cv = v.const_value
@@ -410,7 +439,13 @@ def ob_threshold(chk, ed, core, K):
                         return False
                     continue
                 is_ext = isinstance(cv, tuple) and cv[0] == "ext" and cv[1] is t
-                is_mem = isinstance(cv, tuple) and cv[0] == "mem" and cv[1] is t
+                is_mem = (k == "e" and isinstance(cv, core.Tensor) and cv.name == t.name and cv.dtype == ir.DataType.FLOAT
+                          and cv.numpy().tobytes() == t._data.tobytes())
+                if is_mem:
+                    # the old data file may be overwritten by the write: it must have been read before
+                    ev = [e for e in events if e == ("read", t.name) or e[0] == "write"]
+                    if not ev or ev[0][0] != "read":
+                        return False
                 same = cv is t
                 if not (is_ext or is_mem or same):
                     return False
@@ -425,7 +460,7 @@ def ob_threshold(chk, ed, core, K):
             return True, dict(sizes=[zsym.model_int(m, s) for s in sizes], threshold=zsym.model_int(m, thr), kinds=kinds)
 
         r = explore(body, assume)
-        _account(chk, name, r, dict(sizes=f"{K} x Int>=0", size_threshold_bytes="Int>=0"), replay)
+        _account(chk, name, r, dict(sizes=f"{K} x Int>=0", size_threshold_bytes="Int>=0"), replay, body=body)
 
 
 def _kind_vectors(K):
@@ -501,10 +536,10 @@ def ob_st_threshold(chk, st, K):
 
         save = rebind(st._save_file, _import_safetensors=lambda: FakeST, _replace_tensors=fake_replace,
                       json=FakeJson, open=fake_open)
-        ts = [T(SInt(s), f"t{i}") for i, s in enumerate(sizes)]
+        ts = [T(SV(s), f"t{i}") for i, s in enumerate(sizes)]
         vals = [V(t) for t in ts]
         calls = []
-        save(vals, "w.safetensors", "base", size_threshold_bytes=SInt(thr), max_shard_size_bytes=SInt(mx),
+        save(vals, "w.safetensors", "base", size_threshold_bytes=SV(thr), max_shard_size_bytes=SV(mx),
              callback=lambda t, info: calls.append((t, info)))
         saved_names = [n for names, _ in written for n in names]
         conj = []
@@ -541,7 +576,7 @@ def ob_st_threshold(chk, st, K):
         return True, dict(sizes=[zsym.model_int(m, s) for s in sizes], threshold=zsym.model_int(m, thr), mx=zsym.model_int(m, mx))
 
     r = explore(body, assume, timeout_ms=60000)
-    _account(chk, name, r, dict(sizes=f"{K} x Int>=0", size_threshold_bytes="Int>=0", max_shard_size_bytes="Int>0"), replay)
+    _account(chk, name, r, dict(sizes=f"{K} x Int>=0", size_threshold_bytes="Int>=0", max_shard_size_bytes="Int>0"), replay, body=body)
 
 
 def ob_restore(chk, K):
@@ -575,8 +610,8 @@ def ob_restore(chk, K):
     def body():
         model, vals = build()
         before = [v.const_value for v in vals]
-        f = SInt(fault)
-        nm = SInt(nmut)
+        f = SV(fault)
+        nm = SV(nmut)
 
         class FakeED:
             _DEFAULT_MAX_IN_FLIGHT_BYTES = 1 << 30
@@ -623,7 +658,7 @@ def ob_restore(chk, K):
         return True, dict(fault=zsym.model_int(m, fault), nmut=zsym.model_int(m, nmut))
 
     r = explore(body, assume)
-    _account(chk, name, r, dict(fault_position="Int in 0..3 (none/unload/serialize/onnx.save)", mutated_before_fault=f"Int in 0..{K}"), replay)
+    _account(chk, name, r, dict(fault_position="Int in 0..3 (none/unload/serialize/onnx.save)", mutated_before_fault=f"Int in 0..{K}"), replay, body=body)
 
 
 # ---------------------------------------------------------------------------------------------
